@@ -29,7 +29,8 @@ MANIFEST_NOTE = ("Trusted: Lean kernel (+propext/Classical.choice/Quot.sound), t
 TECHNIQUE = "Lean 4 proof over translated loop shapes + SimdLike-generic LU/kernel model (loop and nested instances proved lawful); translator for operator tables, defaults.hh and type functions; differential correspondence with per-lane scalar oracle (bitwise)"
 TRANSLATORS = [tr_c09.translate]
 HARNESS = dict(
-    sources=["cxx_c09.cc"],
+    # cxx_c09_chk.cc: the same headers once more with DUNE_FMatrix_WITH_CHECKING defined (library renamed to another namespace)
+    sources=["cxx_c09.cc", "cxx_c09_chk.cc"],
     repo_sources=["dune/common/exceptions.cc", "dune/common/stdstreams.cc"],
     # -O0: ~45 vector types x all operators + ~60 matrix/vector types need > 2 min at -O1 with both sanitizers;
     # the UBSan checks that cannot concern lane values (null, alignment, vptr, pointer-overflow, object-size) are left out
